@@ -11,7 +11,9 @@
 //! content changes only at BeginBatchDelete / Finished; the diff returned on
 //! commit, applied to the content before, gives the content after.
 use bytes::{Bytes, BytesMut};
-use domain::base::iana::{Class, Rcode};
+use domain::base::iana::Class;
+use domain::base::rdata::RecordData;
+use domain::dep::octseq::OctetsBuilder;
 use domain::base::message_builder::{StaticCompressor, TreeCompressor};
 use domain::base::name::Name;
 use domain::base::net::{Ipv4Addr, Ipv6Addr};
@@ -34,6 +36,7 @@ enum AR { Soa(u32), Other(u32) }
 fn ar_str(a: AR) -> String { match a { AR::Soa(s) => format!("S{}", s), AR::Other(k) => format!("O{}", k) } }
 
 struct Uni {
+    rrkey: HashMap<(String, String), u32>,
     apex: StoredName,
     recs: Vec<(StoredName, Ttl, Data)>,
     index: HashMap<String, u32>,
@@ -76,9 +79,44 @@ impl Uni {
             index.insert(key(&o.to_string(), d.rtype(), &d.to_string()), i as u32);
         }
         assert_eq!(index.len(), recs.len());
-        Uni { apex, recs, index }
+        let mut rrkey = HashMap::new();
+        rrkey.insert((apex.to_string().to_ascii_lowercase(), Rtype::SOA.to_string()), 0u32);
+        for (o, _, d) in recs.iter() {
+            let n = rrkey.len() as u32;
+            rrkey.entry((o.to_string().to_ascii_lowercase(), d.rtype().to_string())).or_insert(n);
+        }
+        Uni { rrkey, apex, recs, index }
     }
     fn n(&self) -> u32 { self.recs.len() as u32 }
+    /// `K.D.T` word of a record for the diff model: RRset key, data id, TTL
+    fn kdt(&self, a: AR, ttl: u32) -> Option<String> {
+        match a {
+            AR::Soa(id) if id != 999_999 => Some(format!("0.{}.{}", id, ttl)),
+            AR::Other(k) if k != 9999 => {
+                let (o, _, d) = &self.recs[(k % 100) as usize];
+                let kk = self.rrkey[&(o.to_string().to_ascii_lowercase(), d.rtype().to_string())];
+                Some(format!("{}.{}.{}", kk, k % 100, ttl))
+            }
+            _ => None,
+        }
+    }
+    fn diff_txt(&self, d: &Option<InMemoryZoneDiff>) -> String {
+        let Some(d) = d else { return "none".into() };
+        let side = |m: &HashMap<(StoredName, Rtype), SharedRrset>| -> String {
+            let mut v: Vec<(u32, String)> = m.iter().map(|((o, t), rrset)| {
+                let kk = self.rrkey.get(&(o.to_string().to_ascii_lowercase(), t.to_string())).cloned().unwrap_or(9999);
+                let mut ds: Vec<u32> = rrset.data().iter().map(|x| {
+                    let soa = if let ZoneRecordData::Soa(s) = x { Some((s.serial().0, s.minimum().as_secs())) } else { None };
+                    match self.abs_of(&o.to_string(), *t, &x.to_string(), soa) { AR::Soa(i) => i, AR::Other(k) => k }
+                }).collect();
+                ds.sort();
+                (kk, format!("{}:{}:{}", kk, rrset.ttl().as_secs(), ds.iter().map(|x| x.to_string()).collect::<Vec<_>>().join(".")))
+            }).collect();
+            v.sort();
+            v.into_iter().map(|x| x.1).collect::<Vec<_>>().join(",")
+        };
+        format!("R[{}]A[{}]", side(&d.removed), side(&d.added))
+    }
     fn soa(&self, id: u32) -> Data {
         ZoneRecordData::Soa(Soa::new(nm("ns1.example.test."), nm("admin.example.test."), Serial(id >> 1),
             Ttl::from_secs(3600), Ttl::from_secs(600), Ttl::from_secs(86400), Ttl::from_secs(300 + (id & 1))))
@@ -86,6 +124,7 @@ impl Uni {
     fn concrete(&self, a: AR) -> (StoredName, Ttl, Data) {
         match a {
             AR::Soa(id) => (self.apex.clone(), Ttl::from_secs(3600), self.soa(id)),
+            AR::Other(k) if k >= 100 => { let (o, t, d) = self.recs[(k - 100) as usize].clone(); (o, Ttl::from_secs(t.as_secs() + 1000), d) }
             AR::Other(k) => self.recs[k as usize].clone(),
         }
     }
@@ -130,7 +169,7 @@ impl AMsg {
     }
 }
 
-fn build_into<T: Composer>(target: T, uni: &Uni, m: &AMsg) -> T {
+fn build_into<T: Composer>(target: T, uni: &Uni, m: &AMsg) -> T where <T as OctetsBuilder>::AppendError: std::fmt::Debug {
     let mut mb = MessageBuilder::from_target(target).unwrap();
     mb.header_mut().set_id(0x1234);
     mb.header_mut().set_aa(true);
@@ -292,6 +331,7 @@ struct Applied {
     seen_contents: Vec<Content>,     // visible content after every applied update
     diff_bad: Vec<(String, String)>, // (class, detail)
     n_diffs: u64,
+    diff_txts: Vec<String>,
 }
 
 fn apply_updates(uni: &Uni, rt: &tokio::runtime::Runtime, zone: &Zone, upds: &[(usize, String, ZoneUpdate<ParsedRecord>)]) -> Applied {
@@ -300,6 +340,7 @@ fn apply_updates(uni: &Uni, rt: &tokio::runtime::Runtime, zone: &Zone, upds: &[(
     let mut changed_outside = None;
     let mut diff_bad = vec![];
     let mut n_diffs = 0u64;
+    let mut diff_txts: Vec<String> = vec![];
     let mut fin = false;
     let r = catch_mut(|| {
         rt.block_on(async {
@@ -312,17 +353,32 @@ fn apply_updates(uni: &Uni, rt: &tokio::runtime::Runtime, zone: &Zone, upds: &[(
                     Err(domain::zonetree::update::Error::Finished) => return "Err3".to_string(),
                     Err(e) => return format!("ErrX:{}", e),
                     Ok(d) => {
+                        if commit { diff_txts.push(uni.diff_txt(&d)); }
                         let (now, _) = walk_zone(uni, zone);
                         if now != cur && !commit && changed_outside.is_none() { changed_outside = Some(s.clone()); }
                         if let Some(d) = d {
                             n_diffs += 1;
-                            let want = apply_diff(&cur, &d);
+                            // RRsets are compared as sets here (push_data keeps duplicates a faulty stream sent twice)
+                            let dd = |c: &Content| -> Content { c.iter().map(|(k, v)| { let mut x = v.1.clone(); x.dedup(); (k.clone(), (v.0, x)) }).collect() };
+                            let want = dd(&apply_diff(&cur, &d));
+                            let now = dd(&now);
                             if want != now {
-                                // classify
-                                let ttl_only = want.iter().all(|(k, v)| now.get(k).map_or(true, |w| w.1 == v.1)) && want.len() == now.len();
-                                let cls = if s.starts_with("F.") && upds.iter().any(|x| x.1 == "DA") { "diff_misses_delete_all" }
-                                          else if ttl_only { "diff_misses_ttl_change" } else { "diff_not_applicable" };
-                                diff_bad.push((cls.to_string(), format!("after {}: diff applied to old gives {:?}, zone has {:?}", s, want, now)));
+                                let had_da = upds.iter().any(|x| x.1 == "DA");
+                                let mut classes: BTreeSet<&'static str> = BTreeSet::new();
+                                let keys: BTreeSet<&(String, String)> = want.keys().chain(now.keys()).collect();
+                                for k in keys {
+                                    let (w, n, o) = (want.get(k), now.get(k), cur.get(k));
+                                    if w == n { continue; }
+                                    classes.insert(match (w, n, o) {
+                                        (Some(_), None, Some(_)) if had_da => "diff_misses_delete_all",
+                                        (_, Some(n), Some(o)) if n.0 != o.0 => "diff_stale_after_ttl_change",
+                                        (_, Some(_), Some(_)) => "diff_stale_after_reorder",
+                                        _ => "diff_not_applicable",
+                                    });
+                                }
+                                for cls in classes {
+                                    diff_bad.push((cls.to_string(), format!("after {}: diff applied to old gives {:?}, zone has {:?}", s, want, now)));
+                                }
                             }
                         }
                         cur = now.clone();
@@ -337,7 +393,7 @@ fn apply_updates(uni: &Uni, rt: &tokio::runtime::Runtime, zone: &Zone, upds: &[(
     });
     let result = match r { Ok(s) => s, Err(_) => "Panic".to_string() };
     let (fc, fa) = walk_zone(uni, zone);
-    Applied { final_content: fc, final_abs: fa, result, fin, changed_outside_commit: changed_outside, seen_contents: seen, diff_bad, n_diffs }
+    Applied { final_content: fc, final_abs: fa, result, fin, changed_outside_commit: changed_outside, seen_contents: seen, diff_bad, n_diffs, diff_txts }
 }
 
 // ---------------------------------------------------------------- scenarios
@@ -403,31 +459,63 @@ fn package(r: &mut Rng, qtype: u16, chunks: Vec<Vec<AR>>) -> Vec<AMsg> {
     chunks.into_iter().enumerate().map(|(i, c)| AMsg::good(i == 0, r.chance(1, 2), qtype, c)).collect()
 }
 
-struct Ctx<'a> { uni: &'a Uni, rt: &'a tokio::runtime::Runtime, out: &'a mut Out, lone_soa: u64, undetected: BTreeMap<String, u64>, diffs: u64 }
+struct Ctx<'a> { fails: BTreeMap<String, u64>, uni: &'a Uni, rt: &'a tokio::runtime::Runtime, out: &'a mut Out, ttl_kind: bool, lone_soa: u64, undetected: BTreeMap<String, u64>, diffs: u64 }
+
+impl<'a> Ctx<'a> {
+    /// like Out::check, but writes at most 12 failures per class (the rest is counted in stats)
+    fn chk(&mut self, ok: bool, class: &str, case: &str, detail: &str) {
+        if ok { self.out.check(true, class, case, detail); return; }
+        let n = self.fails.entry(class.to_string()).or_insert(0);
+        *n += 1;
+        if *n <= 12 { self.out.check(false, class, case, detail); }
+    }
+}
 
 /// Runs one stream: T2 cases `x` and `ap`, generic oracles (panic, visibility,
 /// diff).  Returns the interpreter run, the applied result.
 fn run_stream(cx: &mut Ctx, label: &str, msgs: &[AMsg], comp: u8, z0: &Version, z0_has_soa: bool, kind: &str) -> (St, Applied, usize) {
+    let t2 = kind != "ttl";
     let uni = cx.uni;
     let case = format!("x {}", msgs.iter().map(|m| m.words()).collect::<Vec<_>>().join(" "));
     cx.out.begin(&case);
     let wire: Vec<Vec<u8>> = msgs.iter().map(|m| build_msg(uni, m, comp)).collect();
     let run = run_interp(uni, &wire);
     let upd_txt = if run.upds.is_empty() { "-".to_string() } else { run.upds.iter().map(|u| u.1.clone()).collect::<Vec<_>>().join(",") };
-    cx.out.case(&case, &format!("{} {}", upd_txt, st_str(&run.st)), msgs.len() > 0 && msgs[0].recs.len() + msgs.len() > 2, kind);
-    cx.out.check(run.st != St::Panic, "panic_xfr", &case, label);
+    if t2 { cx.out.case(&case, &format!("{} {}", upd_txt, st_str(&run.st)), msgs.len() > 0 && msgs[0].recs.len() + msgs.len() > 2, kind); }
+    else { cx.out.oracle_case(&case, true, kind); }
+    cx.chk(run.st != St::Panic, "panic_xfr", &case, label);
     let zone = build_zone(uni, if z0_has_soa { Some(z0.soa) } else { None }, &z0.keys);
     let ap = apply_updates(uni, cx.rt, &zone, &run.upds);
     let mut z0abs: Vec<AR> = z0.keys.iter().map(|k| AR::Other(*k)).collect();
     if z0_has_soa { z0abs.insert(0, AR::Soa(z0.soa)); }
     let apcase = format!("ap {} {}", abs_zone_str(&z0abs), upd_txt);
     let obs = if ap.result == "Ok" { format!("Ok {} {}", abs_zone_str(&ap.final_abs), ap.fin as u8) } else { ap.result.clone() };
-    cx.out.case(&apcase, &obs, !run.upds.is_empty(), "ap");
-    cx.out.check(ap.result != "Panic", "panic_xfr", &apcase, "ZoneUpdater::apply panicked");
-    cx.out.check(ap.changed_outside_commit.is_none(), "partial_version_visible", &apcase,
+    if t2 { cx.out.case(&apcase, &obs, !run.upds.is_empty(), "ap"); }
+    cx.chk(ap.result != "Panic", "panic_xfr", &apcase, "ZoneUpdater::apply panicked");
+    if ap.result == "Ok" {
+        // diff capture model: published content (RRset build order) + the operations
+        let mut pubw: Vec<String> = z0.keys.iter().filter_map(|k| { let (_, t, _) = uni.concrete(AR::Other(*k)); uni.kdt(AR::Other(*k), t.as_secs()) }).collect();
+        if z0_has_soa { pubw.push(uni.kdt(AR::Soa(z0.soa), 3600).unwrap()); }
+        let ops: Option<Vec<String>> = run.upds.iter().map(|(_, _, u)| match u {
+            ZoneUpdate::DeleteAllRecords => Some("DA".to_string()),
+            ZoneUpdate::AddRecord(r) => uni.kdt(uni.abs_parsed(r), r.ttl().as_secs()).map(|w| format!("A:{}", w)),
+            ZoneUpdate::DeleteRecord(r) => uni.kdt(uni.abs_parsed(r), r.ttl().as_secs()).map(|w| format!("D:{}", w)),
+            ZoneUpdate::BeginBatchDelete(_) => Some("BD".to_string()),
+            ZoneUpdate::BeginBatchAdd(r) => uni.kdt(uni.abs_parsed(r), r.ttl().as_secs()).map(|w| format!("BA:{}", w)),
+            ZoneUpdate::Finished(r) => uni.kdt(uni.abs_parsed(r), r.ttl().as_secs()).map(|w| format!("F:{}", w)),
+            _ => None,
+        }).collect();
+        if let Some(ops) = ops {
+            if !ap.diff_txts.is_empty() {
+                let dfcase = format!("df {} {}", if pubw.is_empty() { "-".to_string() } else { pubw.join(",") }, ops.join(","));
+                cx.out.case(&dfcase, &ap.diff_txts.join(" "), ap.diff_txts.iter().any(|d| d != "none"), "df");
+            }
+        }
+    }
+    cx.chk(ap.changed_outside_commit.is_none(), "partial_version_visible", &apcase,
         &format!("{}: readers saw a change after {:?}", label, ap.changed_outside_commit));
-    for (cls, d) in &ap.diff_bad { cx.out.check(false, cls, &apcase, d); }
-    if ap.n_diffs > 0 && ap.diff_bad.is_empty() { cx.out.check(true, "diff_not_applicable", &apcase, ""); }
+    for (cls, d) in &ap.diff_bad { cx.chk(false, cls, &apcase, d); }
+    if ap.n_diffs > 0 && ap.diff_bad.is_empty() { cx.chk(true, "diff_not_applicable", &apcase, ""); }
     cx.diffs += ap.n_diffs;
     let n = run.upds.len();
     (run.st, ap, n)
@@ -443,29 +531,35 @@ fn valid_case(cx: &mut Ctx, r: &mut Rng, mode: u8, chain: &[Version], z0: &Versi
     let lone = mode != 0 && chunks.len() > 1 && chunks[0].len() == 1;
     let msgs = package(r, qtype, chunks);
     let label = ["axfr", "ixfr", "fallback"][mode as usize];
-    let (st, ap, _) = run_stream(cx, label, &msgs, comp, z0, z0_has_soa, label);
+    let label = ["axfr", "ixfr", "fallback"][mode as usize];
+    let kind = if cx.ttl_kind { "ttl" } else { label };
+    let (st, ap, _) = run_stream(cx, label, &msgs, comp, z0, z0_has_soa, kind);
     let case = format!("{} new={} z0={} msgs={}", label, new.soa, z0.soa, msgs.iter().map(|m| m.words()).collect::<Vec<_>>().join(" "));
     if lone {
-        // documented limit of the interpreter (single-SOA signal); see report
+        // known finding: the first message of an IXFR-question stream holds exactly one
+        // answer record and further messages follow -> the single-SOA signal fires
         cx.lone_soa += 1;
-        cx.out.check(st == St::Err(14) && ap.final_content == spec_content(uni, if z0_has_soa { Some(z0.soa) } else { None }, &z0.keys),
-            "lone_soa_not_clean", &case, &format!("status {:?}", st));
+        let z0c = spec_content(uni, if z0_has_soa { Some(z0.soa) } else { None }, &z0.keys);
+        cx.chk(st != St::Panic && ap.final_content == z0c, "partial_version_visible", &case, &format!("lone SOA first message: status {:?}", st));
+        let want = spec_content(uni, Some(new.soa), &new.keys);
+        cx.chk(st == St::Done && ap.final_content == want, "ixfr_lone_soa_first_message", &case,
+            &format!("legal packaging rejected: status {:?}", st));
         return;
     }
     if mode == 2 && new.keys.is_empty() {
         // [SOA, SOA] under an IXFR question is an empty IXFR, not an AXFR of an empty zone
-        cx.out.check(st == St::Done, "ixfr_content_mismatch", &case, &format!("empty fallback: status {:?}", st));
+        cx.chk(st == St::Done, "ixfr_content_mismatch", &case, &format!("empty fallback: status {:?}", st));
         return;
     }
     let want = spec_content(uni, Some(new.soa), &new.keys);
     let cls = if mode == 0 { "axfr_content_mismatch" } else { "ixfr_content_mismatch" };
-    cx.out.check(st == St::Done && ap.result == "Ok" && ap.fin, cls, &case, &format!("valid stream not completed: {:?} / {}", st, ap.result));
-    cx.out.check(ap.final_content == want, cls, &case, &format!("receiver {:?} sender {:?}", ap.final_content, want));
+    cx.chk(st == St::Done && ap.result == "Ok" && ap.fin, cls, &case, &format!("valid stream not completed: {:?} / {}", st, ap.result));
+    cx.chk(ap.final_content == want, cls, &case, &format!("receiver {:?} sender {:?}", ap.final_content, want));
     // every visible state is a version of the chain (or the start zone)
     let mut versions: Vec<Content> = vec![spec_content(uni, if z0_has_soa { Some(z0.soa) } else { None }, &z0.keys)];
     if mode == 1 { for v in chain { versions.push(spec_content(uni, Some(v.soa), &v.keys)); } } else { versions.push(want.clone()); }
     let bad = ap.seen_contents.iter().find(|c| !versions.contains(c));
-    cx.out.check(bad.is_none(), "partial_version_visible", &case, &format!("readers saw {:?}", bad));
+    cx.chk(bad.is_none(), "partial_version_visible", &case, &format!("readers saw {:?}", bad));
 }
 
 const HDR_FAULTS: [&str; 12] = ["rcode", "tc", "qr0", "opcode", "ancount0", "nscount", "qd0_first", "qd2", "wrong_question", "no_question_type", "first_not_soa", "ancount_gt"];
@@ -512,14 +606,14 @@ fn fault_case(cx: &mut Ctx, r: &mut Rng, mode: u8, chain: &[Version], cuts: &[us
             let cls = format!("fault_accepted_{}", fault);
             if fault == "ancount_gt" {
                 // the records present still parse; the error comes when the iterator runs dry
-                cx.out.check(matches!(st, St::Err(_)) || st == St::Done, &cls, &case, &format!("status {:?}", st));
-                if let St::Err(_) = st { cx.out.check(versions.contains(&ap.final_content), "partial_version_visible", &case, "readers see a non-version"); }
+                cx.chk(matches!(st, St::Err(_)) || st == St::Done, &cls, &case, &format!("status {:?}", st));
+                if let St::Err(_) = st { cx.chk(versions.contains(&ap.final_content) || ap.final_content == new_content, "partial_version_visible", &case, "readers see a non-version"); }
             } else {
                 let want = if fault == "first_not_soa" { St::Err(1) } else { St::Err(1) };
                 // the stream may legitimately have finished before message i only if the final SOA came earlier (never here)
-                cx.out.check(st == want, &cls, &case, &format!("status {:?}", st));
-                cx.out.check(versions.contains(&ap.final_content) && (i > 0 || ap.final_content == old_content), "partial_version_visible", &case, "readers do not see the old version");
-                if mode != 1 { cx.out.check(ap.final_content == old_content, "partial_version_visible", &case, "AXFR: readers do not see the old version"); }
+                cx.chk(st == want, &cls, &case, &format!("status {:?}", st));
+                cx.chk(versions.contains(&ap.final_content) && (i > 0 || ap.final_content == old_content), "partial_version_visible", &case, "readers do not see the old version");
+                if mode != 1 { cx.chk(ap.final_content == old_content, "partial_version_visible", &case, "AXFR: readers do not see the old version"); }
             }
         }
         "truncate" | "mismatched_soa" | "mismatched_soa_fields" | "drop_last" => {
@@ -538,10 +632,10 @@ fn fault_case(cx: &mut Ctx, r: &mut Rng, mode: u8, chain: &[Version], cuts: &[us
             let case = format!("{} :: {}", label, msgs.iter().map(|m| m.words()).collect::<Vec<_>>().join(" "));
             let cls = format!("fault_accepted_{}", fault);
             // a one-record IXFR prefix is the "single SOA" answer: reported as Err14
-            cx.out.check(st != St::Done && st != St::Panic, &cls, &case, &format!("status {:?}", st));
-            cx.out.check(!ap.fin, &cls, &case, "updater finished");
-            cx.out.check(versions.contains(&ap.final_content), "partial_version_visible", &case, &format!("readers see {:?}", ap.final_content));
-            if mode != 1 { cx.out.check(ap.final_content == old_content, "partial_version_visible", &case, "AXFR: readers do not see the old version"); }
+            cx.chk(st != St::Done && st != St::Panic, &cls, &case, &format!("status {:?}", st));
+            cx.chk(!ap.fin, &cls, &case, "updater finished");
+            cx.chk(versions.contains(&ap.final_content), "partial_version_visible", &case, &format!("readers see {:?}", ap.final_content));
+            if mode != 1 { cx.chk(ap.final_content == old_content, "partial_version_visible", &case, "AXFR: readers do not see the old version"); }
         }
         "dup_last" | "dup_middle" | "drop_middle" | "swap" | "dup_first" | "drop_first" => {
             let mut msgs = package(r, qtype, chunks);
@@ -560,17 +654,17 @@ fn fault_case(cx: &mut Ctx, r: &mut Rng, mode: u8, chain: &[Version], cuts: &[us
             match fault {
                 "dup_last" => {
                     // the transfer completes, then the extra message is refused
-                    cx.out.check(st == St::Err(3), &cls, &case, &format!("status {:?}", st));
-                    cx.out.check(ap.final_content == new_content, if mode == 0 { "axfr_content_mismatch" } else { "ixfr_content_mismatch" }, &case, "content after refused extra message");
+                    cx.chk(st == St::Err(3), &cls, &case, &format!("status {:?}", st));
+                    cx.chk(ap.final_content == new_content, if mode == 0 { "axfr_content_mismatch" } else { "ixfr_content_mismatch" }, &case, "content after refused extra message");
                 }
                 "dup_middle" if mode != 1 => {
                     // RFC 5936: duplicates must be ignored by the client; as a set the content is the sender's
                     let dedup: Content = ap.final_content.iter().map(|(k, v)| { let mut d = v.1.clone(); d.dedup(); (k.clone(), (v.0, d)) }).collect();
-                    cx.out.check(st == St::Done && dedup == new_content, "axfr_content_mismatch", &case, &format!("status {:?}", st));
+                    cx.chk(st == St::Done && dedup == new_content, "axfr_content_mismatch", &case, &format!("status {:?}", st));
                 }
                 _ => {
                     if st == St::Done || ap.fin { *cx.undetected.entry(fault.to_string()).or_insert(0) += 1; }
-                    else { cx.out.check(versions.contains(&ap.final_content), "partial_version_visible", &case, &format!("readers see {:?}", ap.final_content)); }
+                    else { cx.chk(versions.contains(&ap.final_content), "partial_version_visible", &case, &format!("readers see {:?}", ap.final_content)); }
                 }
             }
         }
@@ -589,7 +683,7 @@ fn main() {
     let mut r = Rng::new(a.seed);
     let uni = Uni::new();
     let rt = tokio::runtime::Builder::new_current_thread().enable_all().build().unwrap();
-    let mut cx = Ctx { uni: &uni, rt: &rt, out: &mut out, lone_soa: 0, undetected: BTreeMap::new(), diffs: 0 };
+    let mut cx = Ctx { fails: BTreeMap::new(), uni: &uni, rt: &rt, out: &mut out, ttl_kind: false, lone_soa: 0, undetected: BTreeMap::new(), diffs: 0 };
     let ks = |v: &[u32]| -> BTreeSet<u32> { v.iter().cloned().collect() };
 
     // ---- corpus ----
@@ -611,11 +705,11 @@ fn main() {
     {
         let msgs = vec![AMsg::good(true, true, 251, vec![AR::Soa(20)])];
         let (st, ap, _) = run_stream(&mut cx, "ixfr_single_soa", &msgs, 1, &v10, true, "corpus");
-        cx.out.check(st == St::Err(14) && ap.final_content == spec_content(&uni, Some(20), &v10.keys), "ixfr_single_soa", "x single soa", &format!("{:?}", st));
+        cx.chk(st == St::Err(14) && ap.final_content == spec_content(&uni, Some(20), &v10.keys), "ixfr_single_soa", "x single soa", &format!("{:?}", st));
         // regression: question type A with a SOA answer (was unreachable!())
         let msgs = vec![AMsg::good(true, true, 1, vec![AR::Soa(20)])];
         let (st, _, _) = run_stream(&mut cx, "qtype_a", &msgs, 0, &v10, true, "corpus");
-        cx.out.check(st == St::Err(1), "xfr_non_xfr_question_unreachable", "x qtype A + SOA", &format!("{:?}", st));
+        cx.chk(st == St::Err(1), "xfr_non_xfr_question_unreachable", "x qtype A + SOA", &format!("{:?}", st));
     }
 
     // ---- exhaustive packagings of short sequences ----
@@ -661,6 +755,39 @@ fn main() {
         }
     }
 
+    // ---- TTL changes (oracle only: the abstract updater model has no TTLs) ----
+    cx.ttl_kind = true;
+    {
+        let va = Version { soa: 50, keys: ks(&[0, 1, 5, 6]) };
+        let vb = Version { soa: 52, keys: ks(&[0, 1, 105, 106]) };
+        let vc = Version { soa: 50, keys: ks(&[0, 9]) };
+        let vd = Version { soa: 54, keys: ks(&[0, 109]) };
+        valid_case(&mut cx, &mut r, 1, &[va.clone(), vb.clone()], &va, true, &[], 1);
+        valid_case(&mut cx, &mut r, 1, &[vc.clone(), vd.clone()], &vc, true, &[], 1);
+        valid_case(&mut cx, &mut r, 0, &[vb.clone()], &va, true, &[], 1);
+        valid_case(&mut cx, &mut r, 0, &[vd.clone()], &vc, true, &[3], 2);
+        let n_ttl = (if a.thorough { 600 } else { 60 }) * a.scale;
+        for _ in 0..n_ttl {
+            let mut fr = r.fork();
+            let base = Version { soa: 2 * (1 + fr.below(1000) as u32), keys: rand_keys(&mut fr, &uni, 8) };
+            let mut nx = mutate(&mut fr, &uni, &base);
+            // re-TTL whole RRsets: all records of an (owner, type) move together
+            let pick: Vec<u32> = nx.keys.iter().cloned().filter(|_| fr.chance(1, 2)).collect();
+            for k in pick {
+                let (o, _, d) = uni.concrete(AR::Other(k));
+                let same: Vec<u32> = nx.keys.iter().cloned().filter(|j| { let (o2, _, d2) = uni.concrete(AR::Other(*j)); o2 == o && d2.rtype() == d.rtype() }).collect();
+                for j in same { if j < 100 { nx.keys.remove(&j); nx.keys.insert(j + 100); } }
+            }
+            let mode = fr.below(2) as u8;
+            let chain = if mode == 1 { vec![base.clone(), nx.clone()] } else { vec![nx.clone()] };
+            let n = if mode == 1 { ixfr_records(&chain).len() } else { nx.keys.len() + 2 };
+            let mut cuts = rand_cuts(&mut fr, n);
+            if mode == 1 { cuts.retain(|c| *c != 1); }
+            let comp = fr.below(3) as u8; valid_case(&mut cx, &mut fr, mode, &chain, &base, true, &cuts, comp);
+        }
+    }
+    cx.ttl_kind = false;
+
     // ---- faults ----
     let faults: Vec<&str> = HDR_FAULTS.iter().cloned().chain(["truncate", "mismatched_soa", "mismatched_soa_fields", "drop_last",
         "dup_last", "dup_middle", "drop_middle", "swap", "dup_first", "drop_first"].iter().cloned()).collect();
@@ -704,5 +831,6 @@ fn main() {
 
     let lone = cx.lone_soa; let diffs = cx.diffs;
     let und = format!("{{{}}}", cx.undetected.iter().map(|(k, v)| format!("{}: {}", json_str(k), v)).collect::<Vec<_>>().join(","));
-    out.finish(&[("lone_soa_first_msg", lone.to_string()), ("undetected_by_design", und), ("diffs_checked", diffs.to_string())]);
+    let fc = format!("{{{}}}", cx.fails.iter().map(|(k, v)| format!("{}: {}", json_str(k), v)).collect::<Vec<_>>().join(","));
+    out.finish(&[("failures_by_class", fc), ("lone_soa_first_msg", lone.to_string()), ("undetected_by_design", und), ("diffs_checked", diffs.to_string())]);
 }
